@@ -136,7 +136,15 @@ class HistContainer(IndexedContainer):
         self._unprocessed_entries = []
 
     def _get_error_reference(self):
+        if self._unprocessed_entries:  # process outstanding entries
+            self._fill_unprocessed()
         return self._data[1:-1]
+
+    def _on_bin_contents_change(self):
+        """uncertainties relative to the bin contents need to be recalculated"""
+        for _err_dict in self._error_dicts.values():
+            _err_dict["err"].reference = self._get_error_reference
+        self._clear_total_error_cache()
 
     # -- public properties
 
@@ -238,6 +246,7 @@ class HistContainer(IndexedContainer):
             self._unprocessed_entries += list(entries)
         except TypeError:
             self._unprocessed_entries.append(entries)
+        self._on_bin_contents_change()
 
     def rebin(self, new_bin_edges):
         """
@@ -258,6 +267,7 @@ class HistContainer(IndexedContainer):
         # mark all entries as unprocessed
         self._unprocessed_entries += self._processed_entries
         self._processed_entries = []
+        self._on_bin_contents_change()
 
     def set_bins(self, bin_heights, underflow=0, overflow=0):
         """
